@@ -1,9 +1,9 @@
 package rules
 
 import (
-	"go/token"
 	"go/ast"
 	"go/constant"
+	"go/token"
 	"go/types"
 	"sort"
 	"strings"
